@@ -117,6 +117,28 @@ void gen_payload(uint64_t seed, size_t n, int flavour, std::vector<uint8_t>& out
   if (flavour == 3 && n > 0) { uint64_t v = nx(); out[v % n] = (uint8_t)(0x80 | (v >> 32)); }   // break it somewhere (may still be valid by luck)
 }
 
+
+// a container whose members all occupy ONE byte (small integers, simple values, empty strings and containers): the densest
+// input there is - the announced member count equals the number of bytes that follow, with nothing to spare
+MV dense_mv(Rng& r) {
+  MV v; bool map = r.chance(1, 3);
+  v.kind = map ? MK_MAP : MK_ARRAY; v.definite = !r.chance(1, 6);
+  static const unsigned NA[] = {24, 24, 25, 23, 26, 48, 255, 256, 257, 600}; static const unsigned NM[] = {12, 12, 13, 11, 24, 128, 300};
+  unsigned n = map ? 2 * NM[r.below(7)] : NA[r.below(10)];
+  for (unsigned i = 0; i < n; i++) {
+    MV c;
+    switch (r.below(8)) {
+      case 0: c.kind = MK_CTRL; c.val = 20 + r.below(4); break;
+      case 1: c.kind = r.chance(1, 2) ? MK_BSTR : MK_TSTR; c.definite = true; break;
+      case 2: c.kind = r.chance(1, 2) ? MK_ARRAY : MK_MAP; c.definite = true; break;
+      case 3: c.kind = MK_NEGINT; c.width = 1; c.val = r.below(24); break;
+      default: c.kind = MK_UINT; c.width = 1; c.val = r.below(24);
+    }
+    v.kids.push_back(std::move(c));
+  }
+  return v;
+}
+
 MV gen_mv(Rng& r, const GenProfile& p, unsigned depth) {
   MV v;
   unsigned k = (unsigned)r.below(depth >= p.max_depth ? 7 : 12);
@@ -143,6 +165,7 @@ MV gen_mv(Rng& r, const GenProfile& p, unsigned depth) {
       break;
     }
     case 7: case 8: {
+      if (r.chance(1, 25)) return dense_mv(r);
       v.kind = MK_ARRAY; v.definite = r.chance(1, 2);
       unsigned n = (unsigned)r.below(p.max_kids + 1); if (r.chance(1, 40)) n = (unsigned)r.range(23, 26);
       for (unsigned i = 0; i < n; i++) v.kids.push_back(gen_mv(r, p, depth + 1));
@@ -160,7 +183,7 @@ MV gen_mv(Rng& r, const GenProfile& p, unsigned depth) {
 }
 
 MV deep_mv(Rng& r, unsigned depth) {
-  MV leaf; GenProfile gp; gp.max_depth = 0; leaf = gen_mv(r, gp, 99);
+  MV leaf; GenProfile gp; gp.max_depth = 0; leaf = r.chance(1, 5) ? dense_mv(r) : gen_mv(r, gp, 99);
   MV cur = leaf;
   for (unsigned i = 0; i < depth; i++) {
     MV w;
